@@ -38,6 +38,10 @@ PROP = {  # commit subject prefix -> (property, what failed)
     "fix: a comment is trivia for the indentation state": ("C14", "two comment lines in one gap, the first indented like the following statement and the second like the preceding one ('    r / # note /     # note / print(..)'), made a valid program unparsable (117+ placements in the thorough tier); the comment token opened/closed blocks"),
     "fix: blank and comment lines are allowed in a block of type conditions": ("C14", "a blank or comment line inside the indented condition block of 'type T: K when' made valid/class/types.mamba unparsable"),
     "fix: a line break inside a string literal or doc-string is the same": ("C14", "a string literal or doc-string spanning lines kept the CR of a CRLF file: '\"a<CRLF>b\"' emitted \"a\\r\\nb\" (LF file: \"a\\nb\"), doc-strings differed at the API (valid/class/doc_strings.mamba)"),
+    "fix: blocks open at the end of the input are closed": ("C19", "an input that stops inside a block followed by blank lines ('def f() =>\\n    print(1) +\\n\\n') reported 'unexpected end' on a line after the last line of text: the Dedent tokens that close open blocks were positioned after the trailing blank lines (truncated-last-line faults of the C19 sweep)"),
+    "fix: a closing brace that closes nothing": ("C02", "'\"}\"' / '\"a}b{c}\"': a '}' with no open '{' drove the lexer's brace counter negative (later '{' not seen as interpolation) and was copied singly into the f-string, which CPython refuses (\"single '}' is not allowed\")"),
+    "fix: the expression guarded by a handle that is used as a value": ("C05", "'def f() -> Int => \"s\" handle ...' and 'def r: Int := if c then .. else (None handle ...)' were accepted: the handled expression of a handle in value position was not constrained at all (found by C04's edits of the A.handle base: TypeError at run time)"),
+    "fix: the new value of a reassignment is checked as an expression": ("C05", "'pm := if c then <block ending in \"s\"> else 1' with pm: Int was accepted for all 40 non-conforming type pairs: if/match on the right of ':=' were generated as statements, so their branches were never tied to the variable's type (also closed C06-F3 and the if-with-None half of C06-F5)"),
     "fix: the output directory is created with its missing parents": ("C13", "'-o out/py' with a missing parent 'out' failed a valid project with 'No such file or directory (os error 2)' and no diagnostic (custom layout, 310 transitions of the thorough BFS)"),
 }
 def main():
